@@ -119,6 +119,8 @@ def finish(prop, tier, level, coverage, violations, t0, assumptions, extra_known
     evidence and replay files, prints the verdict lines, returns the exit code."""
     known = load_known(prop)
     os.makedirs(os.path.join(ROOT, "evidence/replay"), exist_ok=True)
+    for f in glob.glob(os.path.join(ROOT, f"evidence/replay/{prop}-P*.json")):
+        os.remove(f)
     new = 0
     matched = []
     for n, (key, detail) in enumerate(violations):
